@@ -50,6 +50,12 @@ def exec_DP(t):
         elif route == 'resize_val':
             y = Fxp(0.5, True, 7, 3)
             y.resize(dtype=st)
+        elif route in ('ctor_like', 'ctor_like_val'):
+            # the format string together with a template of another (real) format and other modes: the string decides the format
+            ref = Fxp(0.25, True, 12, 3, rounding='around', overflow='wrap')
+            y = Fxp(None if route == 'ctor_like' else 0.5, like=ref, dtype=st)
+            if (y.config.rounding, y.config.overflow) != ('around', 'wrap'):
+                return ['TEMPLATE_CONFIG_LOST']
         elif route == 'fxpsum':
             y = fxpmath.fxp_sum(Fxp([1, 2], True, 8, 0), dtype=st)
             return ['s' if y.signed else 'u', str(y.n_word), str(y.n_frac), '-']
@@ -97,10 +103,10 @@ def generate(tier, rng):
                     sp = spellings(rng, s, n, f, cx)
                     picks = sp if n <= 8 or tier == 'thorough' else [sp[0], rng.choice(sp)]
                     for st in picks:
-                        routes = ['ctor', 'resize', 'resize_val'] + (['fxpsum'] if st == sp[0] and f <= 60 else [])   # fxp_sum: the canonical x.dtype spelling
+                        routes = ['ctor', 'resize', 'resize_val', 'ctor_like', 'ctor_like_val'] + (['fxpsum'] if st == sp[0] and f <= 60 else [])   # fxp_sum: the canonical x.dtype spelling
                         for route in (routes if (n <= 6 or tier == 'thorough') else [rng.choice(routes)]):
-                            if route == 'resize_val' and (n > 52 or f > 60 or cx):
-                                continue
+                            if route in ('resize_val', 'ctor_like_val') and (n > 52 or f > 60 or cx):
+                                continue        # (a real value stored under a -complex string stays a real object: the value decides, not demanded here)
                             yield 'DP %s %s' % (route, st)
     # malformed stream
     for st in ['fxp', 'fxp-', 'fxp-x8/2', 'fxp-s/2', 'fxp-s8', 'fxp-s8/', 'abc', 'Q', 'UQ.3', 'Q-2.10', 'fxp-s8/2-complexx', 'Q8.', 'S8.x', '8.2', 'fxp-S8/2', 'fxp-s8/-2', 'Q8.2junk']:
